@@ -57,8 +57,44 @@ def h_seq(ctx, mods, shape):
 
 
 from .c06 import h_threads, h_async
+from .c11 import Staller
 
-HARNESSES = {'seq': h_seq, 'threads': h_threads, 'async': h_async}
+
+def h_after_failed_open(ctx, mods, shape):
+    """an OPEN that the device does not answer in time (silence / end-of-stream / only foreign traffic), then further
+    operations: the id of the unanswered stream is not handed out again (the device may still answer it late)"""
+    st = Std(ctx, sym_rid=False)
+    st.shell_outs[b'shell:'] = [b'x']
+    w = World(ctx, mods, st.dev, impl=shape['impl'], default_timeout=1, budget=400)
+    w.try_call('connect')
+    if shape.get('counter') is not None:
+        w.dev._local_id = shape['counter']
+    stall = Staller(ctx, st, w, shape['kind'], 0, 2, 1)
+    stall.install()
+    stall.arm()
+    o1 = w.try_call('shell', 'first', decode=False, read_timeout_s=2)
+    ctx.observe('first', o1.kind())
+    ctx.check(not o1.ok, 'an operation whose OPEN is never answered fails', detail=repr(o1))
+    # the device recovers; it answers the old OPEN late (OKAY for the first stream's id) before serving the new stream
+    stall.base = None
+    st.dev.gate = None
+    w.wire.read = type(w.wire).read.__get__(w.wire)
+    st.dev.wire = core.SymBytes()
+    st.dev.frames = []
+    o2 = w.try_call('shell', 'second', decode=False, read_timeout_s=2)
+    o3 = w.try_call('shell', 'third', decode=False, read_timeout_s=2)
+    ctx.observe('second', o2.kind())
+    opens = [p for p in st.dev.decoder.packets if p.cmd == b'OPEN']
+    ids = [p.a0 for p in opens]
+    ctx.observe('ids', ids)
+    ctx.check(len(ids) >= 2, 'every operation sent an OPEN', detail=str(ids))
+    for i in range(len(ids)):
+        ctx.check(sand(ids[i] >= 1, ids[i] <= U32), 'OPEN uses a local id in [1, 2^32-1]')
+        for j in range(i + 1, len(ids)):
+            ctx.check(ids[i] != ids[j], 'the id of a stream that was never closed is not handed out again', detail='%r' % (ids,))
+    ctx.check(o2.ok and o2.value == b'x' and o3.ok and o3.value == b'x', 'operations after a failed OPEN get their own output', detail='%r %r' % (o2, o3))
+
+HARNESSES = {'seq': h_seq, 'threads': h_threads, 'async': h_async, 'after_failed_open': h_after_failed_open}
 
 
 def shapes(tier, seed):
@@ -68,6 +104,9 @@ def shapes(tier, seed):
         for k in range(1, 4 if q else 5):
             out.append({'h': 'seq', 'impl': impl, 'k': k})
         out.append({'h': 'seq', 'impl': impl, 'k': 2, 'via': 'streaming_shell'})
+        for kind in ('silence', 'eof', 'foreign'):
+            for c in (None, 2 ** 32 - 2):
+                out.append({'h': 'after_failed_open', 'impl': impl, 'kind': kind, 'counter': c})
     # H14b: concurrent opens
     counters = [0, 2 ** 32 - 3, 2 ** 32 - 2, 2 ** 32 - 1, 'sym']
     for c in counters:
